@@ -127,11 +127,24 @@ def poolEntry : Sexp → Option (Except Nat (SrcFile String))
   | .list (.atom "doc" :: ds) => (Dec.doc (.list (.atom "doc" :: ds))).map srcFileOf
   | _ => none
 
+/-- `normalize_path` on path texts (C20 model) -/
+def normStr (s : String) : String := Paths.render (Paths.normalize (Paths.components s))
+
+/-- a `PathBuf` as a `HashMap` key: `loaded_files` compares keys by COMPONENTS (`/p/./f` = `/p/f`, `/p//f` = `/p/f`), so the
+    file names of a history are read through `Path::components` before they become the model's (string) keys -/
+def canonStr (s : String) : String := Paths.render (Paths.components s)
+
+def canonOp : Op String Nat → Op String Nat
+  | .call (.initiate f i) => .call (.initiate (canonStr f) i)
+  | .call (.load t f i) => .call (.load t (canonStr f) i)
+  | o => o
+
 def params (cfg : Exports.Config) (pool : Array (Except Nat (SrcFile String))) : Params String Nat where
   parseSrc i := match pool[i]? with
     | some r => r
     | none => .error 99
   res := resolveStr
+  norm := normStr
   code := nameCode
   cfg := cfg
   eImp
@@ -156,14 +169,14 @@ def env (π : Params String Nat) (U : List String) : Env String Nat JsModule whe
 /-- DELIBERATELY WRONG variants of `LoaderC.emitFiles` (a copy of its body with one step altered), only for the harness'
     self-test `C19_CONCRETE_MUTANT=k` (the stream must report each of 1–4; never used by `./check`):
     1 = imported definitions appended in reverse order, 2 = the LAST undefined spread is reported, 3 = no undefined-spread
-    check, 4 = literals attached to the constants in reverse order; 5 is not a mutant but the candidate correction
-    "the root is known to the import resolver by its NORMALISED path" (see design-notes/C19.md) -/
+    check, 4 = literals attached to the constants in reverse order; 5 = the root handed to the import resolver under its
+    name AS SUPPLIED (the mis-transcription this stream found in the first version of `emitFiles`, see design-notes/C19.md) -/
 def emitFilesM (k : Nat) (π : Params String Nat) (root : String) (files : List (String × Loader.Doc String Nat)) :
     EmitRes JsModule :=
   match (projOf π files).lookup root with
   | none => .err 0
   | some rootFile =>
-    let root' := if k = 5 then Paths.render (Paths.normalize (Paths.components root)) else root
+    let root' := if k = 5 then root else π.norm root
     match resolveDoc π.code π.res (projOf π files) root' rootFile with
     | .err e => .err (π.eImp e)
     | .outOfFuel => .trap
@@ -295,7 +308,8 @@ def pathsOf (ops : List (Op String Nat)) : List String :=
     | _ => none
 
 def runHist (mutant : Nat) (π : Params String Nat) : Sexp → Option Sexp
-  | .list (.atom "ops" :: os) => (os.mapM opOf).map fun ops =>
+  | .list (.atom "ops" :: os) => (os.mapM opOf).map fun ops0 =>
+      let ops := ops0.map canonOp
       let U := (pathsOf ops).eraseDups
       Sexp.ok ((runResps (if mutant = 0 then env π U else envM mutant π U) init ops).map respSexp)
   | _ => none
